@@ -215,7 +215,7 @@ def run_vecinit(prog, rep):
     rule = rep.rule('R-VECFILL', 'a local container filled only under a condition is not subscripted where that condition may be false', floor=1)
     n = 0
     for f in sorted(prog.funcs.values(), key=lambda f: (f.file, f.line)):
-        if f.body is None or not (f.q.startswith('nix::') or '/repo/' in (f.file or '')) or f.q.startswith('nix::hdf5::h5x'):
+        if f.body is None or not (f.q.startswith('nix::') or (f.file and not prog.rel(f.file).startswith('/'))) or f.q.startswith('nix::hdf5::h5x'):
             continue
         lv = sem.local_vars(f)
         mods = sem.mods(f)
@@ -331,7 +331,7 @@ def run_rawbuf(prog, rep):
     rule = rep.rule('R-RAWBUF', 'a local container handed out as a writable raw buffer was sized (resize / sized constructor) before, not only reserve()d', floor=5)
     n = 0
     for f in sorted(prog.funcs.values(), key=lambda f: (f.file, f.line)):
-        if f.body is None or not ((f.file or '').startswith('/repo') or f.q.startswith('nix::')) or f.q.startswith('std::') or f.q.startswith('boost::'):
+        if f.body is None or not ((f.file and not prog.rel(f.file).startswith('/')) or f.q.startswith('nix::')) or f.q.startswith('std::') or f.q.startswith('boost::'):
             continue
         lv = sem.local_vars(f)
         seen = set()
@@ -385,3 +385,60 @@ def run_rawbuf(prog, rep):
 def split_sig_local(sig):
     from ..sem import split_sig
     return split_sig(sig)
+
+
+def run_colidx(prog, rep):
+    """DataFrameDimensionHDF5: a column vector is subscripted only with an index that checkColumnIndex returned, and checkColumnIndex returns
+    only indices it compared with the number of columns of the frame"""
+    from ..absint import GenericInterp
+    rule = rep.rule('R-COLIDX', 'data frame dimension: every column subscript uses an index validated against the number of columns (explicit or stored default alike)', floor=3)
+    f = prog.fn('nix::hdf5::DataFrameDimensionHDF5::checkColumnIndex')
+    it = GenericInterp(prog)
+    res = it.enumerate(f, this='THIS', args=[(f.params[0]['name'],)])
+    probs = []
+    nret = 0
+    for assign, out, log, fields in res:
+        if out[0] != 'ret':
+            continue
+        nret += 1
+        R = out[1]
+        inrange = [v for k, v in assign.items() if k[0] == 'cmp' and k[1] == '<' and k[2] == ('deref', R) and isinstance(k[3], tuple) and k[3][:2] == ('call', 'size') and 'columns' in repr(k[3])]
+        present = assign.get(('truthy', R))
+        if not inrange or inrange[0] is not True:
+            probs.append('returns %s without having compared it with the number of columns: a stored default equal to the column count (which appendDataFrameDimension accepts) is handed to cols[i], one element past the end' % (
+                'the stored default column' if 'columnIndex' in repr(R) else 'the given index'))
+        if present is not True:
+            probs.append('may return an empty optional (dereferenced by the callers)')
+    if nret < 2:
+        probs.append('only %d returning paths' % nret)
+    rule.check(not probs, 'DataFrameDimensionHDF5::checkColumnIndex', rep.where(f), f.label(), 'every returned index is present and < columns().size() (%d returning paths)' % nret, '; '.join(sorted(set(probs))[:2]))
+    sem = Sem(prog)
+    n = 0
+    for g in sorted(prog.methods_of('nix::hdf5::DataFrameDimensionHDF5'), key=lambda g: (g.line, g.sig)):
+        if g.body is None or g is f:
+            continue
+        lv = sem.local_vars(g)
+        for c in g.walk():
+            if not (c.k == 'call' and c.get('op') == '[]' and c.c and len(c.c) == 2):
+                continue
+            base = unwrap(c.c[0])
+            if base.k != 'ref' or base.decl.get('kind') != 'local':
+                continue
+            bv = lv.get(base.decl.get('lid'))
+            if bv is None or 'vector<' not in (bv.get('ctype') or bv.get('type') or '') or bv.c[0] is None or 'columns' not in bv.c[0].src(40):
+                continue
+            n += 1
+            it_ = term(unwrap(c.c[1]))
+            idxv = None
+            for x in c.c[1].walk():
+                if x.k == 'ref' and x.decl.get('kind') == 'local':
+                    idxv = lv.get(x.decl.get('lid'))
+            ok = idxv is not None and idxv.c and idxv.c[0] is not None and 'checkColumnIndex' in idxv.c[0].src(60)
+            if ok:
+                # not reassigned afterwards from something else
+                later = [m for m in sem.mods(g).get(idxv.get('lid'), []) if m.id > idxv.id and m.id < c.id and 'checkColumnIndex' not in m.src(80)]
+                ok = not later
+            rule.check(ok, '%s|%s' % (g.q.split('::')[-1] + '(%d)' % len(g.params), c.src(30)), rep.where(c), g.label(), 'index comes from checkColumnIndex', 'column vector subscripted with %s, which does not come from checkColumnIndex' % c.c[1].src(30))
+    if n < 2:
+        raise AnalysisBroken('R-COLIDX: only %d column subscripts found' % n)
+    return rule
